@@ -31,6 +31,7 @@ EOF = "<EOF>"
 STALL = "<STALL>"
 
 CURRENT = None  # the Net in force (one at a time per process)
+PEEK_ONLY = False  # set by mc.canon while it peeks into BufferedReaders
 
 
 class SimStall(BaseException):
@@ -176,6 +177,8 @@ class _Raw(io.RawIOBase):
         return True
 
     def readinto(self, b):
+        if PEEK_ONLY:
+            return None  # canonicaliser is peeking: no I/O, no side effect
         d = self._s._next(len(b))
         b[:len(d)] = d
         return len(d)
@@ -481,6 +484,10 @@ def install():
     _uretry.time = ft
     import logging
     logging.disable(logging.CRITICAL)
+    # the stub TLS layer never consults a trust store: loading the system bundle (27 ms per
+    # context) is pure cost here
+    _real["load_default_certs"] = ssl.SSLContext.load_default_certs
+    ssl.SSLContext.load_default_certs = lambda self, purpose=ssl.Purpose.SERVER_AUTH: None
 
 
 def uninstall():
@@ -492,4 +499,5 @@ def uninstall():
     _uconn.ssl_wrap_socket = _real["ssl_wrap_socket"]
     _utimeout.time = _real_time
     _uretry.time = _real_time
+    ssl.SSLContext.load_default_certs = _real["load_default_certs"]
     _installed = False
